@@ -49,7 +49,8 @@ def spy_mods(it, self):
     for holder, f in ((rtc, 'spy'), (rtc, 'tuples'), (full, 'spy'), (full, 'trace')):
         d = c.read(holder, f)
         out += [(d, '$items'), (d, '$len')]
-    out += [(self, 'last_live_trace_datetime')]
+    # bookkeeping of the live-trace printer (which record was printed last); instrumentation state only
+    out += [(self, f) for f in sorted(it.src.init_attrs(self.pytype)) if f.startswith('last_live_trace_')]
     return out
 
 
